@@ -83,8 +83,14 @@ Section Transport.
   Qed.
 
   (* ---------- dot ---------- *)
-  Theorem gen_coo_dot_spec (c : coo R) (x : list R) n A z :
-    c_shape c = [n; n] -> length x = n -> gen_to_dense2 R rO radd c = Some A -> gen_coo_dot R rO radd rmul c x [] = Some z ->
+  (* rectangular statement: data of shape (nr, nc), x of length nc; the number of entries of the result is what the source
+     allocates (gen_dot_rows: len(x) with zeros_like(x) - then nr = nc is forced - or shape[0]) *)
+  Theorem gen_coo_dot_spec (c : coo R) (x : list R) nr nc A z :
+    c_shape c = [nr; nc] -> length x = nc -> gen_dot_rows R c x = nr ->
+    gen_to_dense2 R rO radd c = Some A -> gen_coo_dot R rO radd rmul c x [] = Some z ->
     z = matvec R rO radd rmul A x.
-  Proof. rewrite gen_to_dense2_is_model. exact (coo_dot_spec R rO rI radd rmul rsub ropp Rth c x n A z). Qed.
+  Proof.
+    intros Sc Lx Hr EA Ez. rewrite gen_to_dense2_is_model in EA. unfold gen_coo_dot in Ez. rewrite Hr in Ez.
+    exact (coo_dot_n_spec R rO rI radd rmul rsub ropp Rth c x nr nc A z Sc Lx EA Ez).
+  Qed.
 End Transport.
